@@ -32,7 +32,9 @@ CFG = {
             "Lifetimes (a quarter of the cases each): `scope` = a run of signals / memos is created under a child owner (always reference counted "
             "there: ArcRwSignal / arc_signal, ArcMemo with every constructor, ArcSignal / ArcMappedSignal wrappers) that is cleaned up early in "
             "the history - the nodes must keep working; `disposew` = a fresh Signal::from(node) wrapper is created and disposed while other "
-            "readers keep reading the node; `paused` = the root owner is paused / resumed in memo-only programs (memos must not care)",
+            "readers keep reading the node; `paused` = the root owner is paused / resumed in memo-only programs (memos must not care); "
+            "`setun` = untracked write (update_untracked / write_untracked) + explicit notify() through every handle / MappedSignal; wrap 6 = "
+            "Signal<Option<T>>::from(Signal<T>); `memof` = ArcMemo::from(ArcRwSignal / ArcReadSignal) (its own runs cannot be instrumented: left out of runs=)",
     "trusted": ["reactive_graph's Rust closures are driven through an interpreter of the same Expr grammar (harness/hx-c01/src/lib.rs)",
                 "lean/LeptosModel/Model/ReactiveDriver.lean maps `acc` to nothing and a leaf `memoc k e` to `memo e` (argument in its header: a comparator is visible to subscribers only)"],
     "modelled": ["MemoInner::{mark_dirty,mark_check,update_if_necessary}", "signal mark_dirty", "Track::track", "SourceSet/SubscriberSet",
